@@ -17,6 +17,7 @@ Every column obligation is split (as for C03) into
   normalisation:  the per-vector value is raw/(T sqrt(N_a N_b)) for any value of raw (ring normal form);
   rounded:        the value that enters the |q|-average is round6 of that per-vector value;
   group-mean:     the returned column is the mean of those rounded values over the vectors with the row's key.
+Default wave-vector set (choosewavevector, symbolic numofq): see ChooseWaveVectorSym / LexEnum below.
 """
 import z3
 
@@ -34,8 +35,8 @@ NOT_DECIDED = [
     "which wave vectors share a rounded |q| for incommensurate box edges (the 1e-6 rounding is the uninterpreted round6 of the pandas contract)",
     "floating-point accuracy of exp/cos/sin and of the accumulated sums (A1: floats are reals)",
     "group means: non-emptiness of every returned group is part of the assumed groupby contract",
-    "default wave-vector set (choosewavevector) for all numofq: only a bounded run (numofq <= 12 in 2D, <= 6 in 3D) — the compaction "
-    "loop `qvectors[index] = ...; index += 1` needs a written invariant with ghost rank arrays",
+    "default wave-vector set: the float test `modf(sqrt(k))[0] == 0` is taken as 'k is a perfect square' (exact for k < 2**52; assumed, see "
+    "TRUSTED); onlypositive='z' with ndim=2 and non-bool/str options are not specified by the documentation and not checked",
     "sum rule N S = sum_a N_a S_aa + 2 sum_{a<b} sqrt(N_a N_b) S_ab on the returned (rounded, |q|-averaged) numbers: proved only as the "
     "per-frame identity and induction-step lemmas on the spec terms (holds before rounding by the modes+normalisation clauses)",
     "sign of the group mean of the diagonal columns (needs 'sum of non-negative terms' over a symbolic group): proved per vector, "
@@ -52,6 +53,14 @@ TRUSTED = [
     "loop rule of pyvc/loops.py: joined body branches (if/elif routing by type) and numeric accumulators promoted to arrays by the first "
     "iteration are summarised as sums, checked by loop-init (after the first iteration) and loop-step obligations",
     "the object invariant established by sq.__init__ (own unit) is the methods' precondition",
+    "choosewavevector: math.modf(math.sqrt(k))[0] == 0  <=>  PSQ(k) ('k is a perfect square') for an integer k >= 0 (pyvc/libext/C04.py; a theorem "
+    "over the reals, for floats the assumption that the correctly rounded root of a non-square below 2**52 is not an integer)",
+    "choosewavevector: the ghost enumeration S of the finite set D = {p in [-h,h)^d : PSQ(p.p)} in lexicographic order with its inverse "
+    "rank(p) = number of members of D before p (closed form, nested counting sums): facts (a) S(r) in D and rank(S(r)) = r for r < |D|, "
+    "(b) rank(p) < |D| and S(rank(p)) = p for p in D, (c) S strictly increasing (contracts/C04.py: LexEnum) — the d-dimensional form of the "
+    "engine's boolean-mask selection contract SEL/RANK (pyvc/relops.py); theorems about finite sets, not machine-checked",
+    "choosewavevector: the boolean-mask selections after the loops use the assumed numpy contract of a[mask] (pyvc/relops.py: SEL/RANK, "
+    "increasing); the induction principle over one axis for the count-bound lemmas (|D| <= numofq^d: base and step obligations per axis)",
 ]
 
 
@@ -519,7 +528,7 @@ class Dispatch(Unit):
 
 def _cwv_summary(interp, args, kwargs):
     """callee contract of choosewavevector used by sq.__init__: requires ndim in {2,3}; returns an integer array (Mq, ndim)
-    (its content is specified by the ChooseWaveVector units); the call arguments are recorded for the caller's clause"""
+    (its content is specified by the ChooseWaveVectorSym unit); the call arguments are recorded for the caller's clause"""
     from pyvc.state import cur
     names = ["ndim", "numofq", "onlypositive"]
     a = dict(zip(names, args))
@@ -1178,14 +1187,21 @@ MANIFEST = {
             "columns exist exactly for a <= b <= K in the stated order; CSV = returned table; _qvectors.csv = integer vectors, |q| and the "
             "unrounded per-vector values; diagonal and total per-vector values are >= 0; sq.getresults dispatches on the species number "
             "(1..5, >5 -> total only); sq.__init__ establishes q = 2 pi n / L, |q|, df_qvector, N, T, species counts = #{i: type_i = id} "
-            "and calls choosewavevector(ndim, int(2 qrange / min(2 pi / L)), onlypositive) for the default set; lemmas: per-frame "
+            "and calls choosewavevector(ndim, int(2 qrange / min(2 pi / L)), onlypositive) for the default set; choosewavevector (real "
+            "AST, SYMBOLIC numofq >= 0, d in {2,3}, onlypositive in {False, True, 'x','y','z'}): the returned rows are exactly - each once, in the "
+            "lexicographic order of the loops - the vectors n of [-h,h)^d, h = numofq//2, with n != 0, n.n a perfect square, further all "
+            "components >= 0 (True) / positive along the axis and zero elsewhere ('x','y','z'): soundness, completeness, strict order on the "
+            "returned array; written loop invariant of the nested compaction loops (index = rank of the position = number of valid positions "
+            "before it, rows below index = the lexicographic enumeration, rows from index on = 0) with loop-init / loop-step obligations from "
+            "the real bodies; no store leaves the buffer (|D| <= numofq^d by induction lemmas per axis); lemmas: per-frame "
             "sum-rule identity |sum_a rho_a|^2 = sum_a |rho_a|^2 + 2 sum_{a<b} Re[rho_a conj rho_b] and the induction steps of "
             "rho = sum_a rho_a and of 'sum of non-negative terms'.",
     "note": "floats as reals (A1); assumed: pandas frame/round/groupby-mean/to_csv contracts, np.unique (relational), np.linalg.norm, "
             "exp(-ix) = cos x - i sin x, math.modf(sqrt(k))[0] == 0 iff k is a perfect square; the methods take the invariant of "
-            "sq.__init__ as precondition with type ids 1..K; choosewavevector (default set = non-zero integer vectors of "
-            "[-floor(n/2), floor(n/2))^d with integer norm, onlypositive True/'x'/'y'/'z') is BOUNDED only: numofq in "
-            "{0,1,2,3,5,8,12} (d=2) and {0,1,3,4,6} (d=3), real AST executed by the engine, reported separately; the sum rule is "
+            "sq.__init__ as precondition with type ids 1..K; choosewavevector: documented range = half-open [-floor(n/2), floor(n/2)) per "
+            "axis; assumed: the ghost lexicographic enumeration of the documented set with rank = count of preceding members (d-dimensional "
+            "SEL/RANK), the a[mask] selection contract, modf/sqrt as the perfect-square test, induction over an axis for the count bound; "
+            "no bounded stand-in is left; the sum rule is "
             "proved as lemmas on the spec terms, not chained to the rounded output; the raising behaviour of __init__ for varying "
             "particle number / box is not under contract",
 }
